@@ -348,6 +348,10 @@ func ruleForeignTablesMerged(c *Ctx, rule string) {
 			})
 			if updates {
 				out[rg.Block()] = true
+				// a merge written as a helper counts where the helper is called
+				if li := liftTo(rg, fn); li != nil && li.Parent() == fn {
+					out[li.Block()] = true
+				}
 			}
 		}
 		return out
